@@ -27,14 +27,14 @@ ASSUME_X = [
 PLAN = {
     "C01": {
         "mc": [MC_EXCHANGE, MC_READER],
-        "families": [fam("x_small"), fam("x_large"), REPLAY_READER, fam("x_large", crate="harness-min")],
+        "families": [fam("x_small"), fam("x_large"), REPLAY_READER, fam("x_large", crate="harness-min"), fam("x_status")],
         "crates": ["harness", "harness-min"],
         "rule": "scenario = (script, segmentation, caller read schedule); small scripts enumerated exhaustively (payload<=4, all chunkings, every single cut point), large ones random around 8 KiB/64 KiB; distinct = distinct scenario id",
         "assumptions": ASSUME_X,
     },
     "C02": {
         "mc": [MC_EXCHANGE, MC_READER],
-        "families": [fam("x_fault"), fam("x_large_fault"), REPLAY_READER, fam("x_large_fault", crate="harness-min")],
+        "families": [fam("x_fault"), fam("x_large_fault"), REPLAY_READER, fam("x_large_fault", crate="harness-min"), fam("x_json")],
         "crates": ["harness", "harness-min"],
         "rule": "every small script cut / failed (fatal and transient I/O errors) at every body offset, malformed chunk framing at every chunk, then reads continue after the error; large random ones with boundary-biased fault offsets",
         "assumptions": ASSUME_X,
@@ -155,12 +155,14 @@ PLAN = {
         "families": [{"gen": ("tlc", {"name": "watchdog-schedules", "tla": "MC_WatchdogReplay.tla", "cfg": "MC_WatchdogReplay.cfg", "cfg_thorough": "MC_WatchdogReplay_thorough.cfg", "workers": 4}),
                       "runner": "wdsched", "trace": "Trace_Watchdog", "threads": 12, "budget_ms": 60000},
                      fam("rt", runner="rt", trace="Trace_Timeouts", threads=12, budget_ms=60000),
+                     fam("rt", runner="rt", trace="Trace_Timeouts", threads=12, budget_ms=60000, crate="harness-rustls"),
                      fam("rt_release", runner="rt", trace="Trace_Timeouts", threads=1, budget_ms=60000),
                      # which kind of error is reported (ErrorKinds.tla): a timeout only when a transport read really timed out
                      fam("x_errkinds"),
                      # connection lifecycle (ConnLifecycle.tla): sockets of earlier hops and of failed calls are released
                      {"gen": ("tlc", {"name": "redirect-chains", "tla": "MC_Redirect.tla", "cfg": "MC_Redirect.cfg", "cfg_thorough": "MC_Redirect_thorough.cfg", "workers": 8}),
                       "runner": "loop", "trace": "Trace_SendLoop"}],
+        "crates": ["harness", "harness-rustls"],
         "rule": "Watchdog.tla (reader / watchdog thread / peer / clock, one action per critical section) checked exhaustively by TLC for every interleaving and every read sequence after end-of-body, with the two design alternatives shown to violate the invariants; real loopback exchanges: every phase as the stall point (upload not read, before/inside the head, between head and body, inside a length / close / chunked body, chunk-size line, CONNECT reply) x silent stall / octet drip faster than the read timeout x overall timeout / read timeout alone; redirect chains whose hops together exceed T; prompt responses read on after end-of-body; thread and socket counts after drop; SendImpl.tla (the send loop and the ownership of its stream, every failure exit) checked to stay inside ConnLifecycle.tla, and the transport-level token sequence (dial, write, read, drop, return) of every redirect-chain scenario judged against that contract: no connection outlives its hop, none is left after an error, the response's connection goes with the response",
         "assumptions": ["wall-clock checks use a margin of 700 ms against stalls of 2.5 s; the interleaving claims are decided in the model", "the connect phase is outside (the overall timeout applies once the connection is established)"],
         "replay_runner": "rt", "replay_trace": "Trace_Timeouts",
@@ -232,7 +234,7 @@ PLAN = {
     },
     "C19": {
         "mc": [MC_EXCHANGE, MC_READER],
-        "families": [fam("x_small"), fam("x_large"), REPLAY_READER],
+        "families": [fam("x_small"), fam("x_large"), REPLAY_READER, fam("x_resume", also_counts=["G01_eofOnlyWhenComplete", "G01_noSpuriousError", "G01_prefix"])],
         "rule": "every transport read that finds nothing released is a pause point ('want' event) judged against Deliverable(arrived)",
         "assumptions": ASSUME_X,
     },
